@@ -331,6 +331,18 @@ func ApplyStep(w *World, lg zerolog.Logger, m RefLogger, s Step) (zerolog.Logger
 	case "Reset":
 		lg = lg.With().Reset().Logger()
 		m.Ctx = nil
+	case "UpdateReset":
+		// in place, on the logger value itself (no With() first): loggers copied from it by value earlier (Hook,
+		// Level, Sample) share its context bytes and must not be touched by the reset
+		lg.UpdateContext(func(c zerolog.Context) zerolog.Context {
+			c = c.Reset()
+			for _, f := range s.Fields {
+				c = ApplyContext(c, f)
+			}
+			return c
+		})
+		m.Ctx = nil
+		m.Ctx = append(m.Ctx, ctxFieldsExp(s.Fields, &m)...)
 	case "UpdateContext":
 		lg = lg.With().Logger()
 		lg.UpdateContext(func(c zerolog.Context) zerolog.Context {
